@@ -222,7 +222,7 @@ def query_kind(case, q, W=None):
 # --------------------------------------------------------------------------------------
 
 def gen_cases(ctx, count, n_range, k_range, weakly_modes, want=("ok",), q_per=6, consts=0.05, depth=2,
-              outside_sig=0.1, max_tries=40, ties=0.0):
+              outside_sig=0.1, max_tries=40, ties=0.0, deep=0.12):
     """generate cases whose base status (by brute force classification) is in `want`"""
     rng = ctx.rng
     cases = []
@@ -237,6 +237,11 @@ def gen_cases(ctx, count, n_range, k_range, weakly_modes, want=("ok",), q_per=6,
         if rng.random() < ties and n_range[1] >= 4:
             n = nq = rng.randint(max(4, n_range[0]), n_range[1])
             conds, queries = core.gen_tie_case(rng, n)
+        elif rng.random() < deep and n_range[1] >= 4:
+            n = nq = rng.randint(max(4, n_range[0]), n_range[1])
+            conds, queries = core.gen_chain_case(rng, n)
+            rng.shuffle(queries)
+            queries = queries[:q_per]
         else:
             conds = core.gen_base(rng, n, k, depth=depth, consts=consts)
             if rng.random() < outside_sig:
